@@ -129,22 +129,18 @@ Definition fee_is_function_source (x : seg) : bool :=
   | None => false
   end.
 
-(** state machine of MergeExtractor.extract over the statement's children: [tf] = "a target is expected"
-    (after MERGE / INTO), [sf] = "a source is expected" (after USING), [w] = "a target table has been recorded" *)
-Fixpoint merge_guard (segs : list seg) (tf sf w : bool) : bool :=
+(** state machine of MergeExtractor.extract over the statement's children: [sf] = "a source is expected" (set by
+    USING, reset by the next non-keyword child).  A bracketed source (not itself a table reference) reached in that
+    state is followed by another child (merge.py reads segments[i + 1] for the alias). *)
+Fixpoint merge_guard (segs : list seg) (sf : bool) : bool :=
   match segs with
   | [] => true
   | s :: r =>
-      if tyis s "merge_match" then w && merge_guard r false false w
-      else if tyis s "keyword" then
-        let u := raw_upper s in
-        if mem_string u ["MERGE"; "INTO"] then merge_guard r true sf w
-        else if String.eqb u "USING" then merge_guard r tf true w
-        else merge_guard r tf sf w
+      if tyis s "merge_match" then merge_guard r false
+      else if tyis s "keyword" then merge_guard r (if String.eqb (raw_upper s) "USING" then true else sf)
       else
-        let isref := ty_in s ["table_reference"; "object_reference"] in
-        (if sf && negb isref && tyis s "bracketed" then nonempty r else true)
-        && merge_guard r false false (w || (tf && isref))
+        (if sf && negb (ty_in s ["table_reference"; "object_reference"]) && tyis s "bracketed" then nonempty r else true)
+        && merge_guard r false
   end.
 
 Definition imp (a b : bool) : bool := negb a || b.
@@ -164,8 +160,8 @@ Definition local_ok (x : seg) : bool :=
   && imp (tyis x "column_reference") (nonempty (list_child_segments x true))
   (* L6 models.SqlFluffTable.of: table.segments[0]; Path(table_identifier.segments[-1]) *)
   && imp (ty_in x ["table_reference"; "object_reference"; "file_reference"] ) (nonempty (children x))
-  (* L7 merge.py: list(holder.write)[0], segments[i + 1] *)
-  && imp (tyis x "merge_statement") (merge_guard (list_child_segments x true) false false false).
+  (* L7 merge.py: segments[i + 1] *)
+  && imp (tyis x "merge_statement") (merge_guard (list_child_segments x true) false).
 
 Fixpoint escape_free (s : seg) : bool :=
   match s with
